@@ -155,9 +155,15 @@ def second_solver(eng, extra, z3_verdict, timeout_s=10):
 WITNESS_BOUND = 10**6
 
 
-def _candidates(v):
-    """Nearby exactly-representable values for a model value v (Fraction)."""
+def _candidates(v, style="dyadic"):
+    """Nearby values for a model value v (Fraction): exactly representable ones, or - style "decimal" - short decimals
+    and thirds first (values whose doubles carry round-off into the LP solver)."""
     out = []
+    if style == "decimal":
+        for d in (10, 3, 1000, 7):
+            c = Fraction(round(v * d), d)
+            if c.denominator != 1 and c not in out:
+                out.append(c)
     for d in (1, 2, 8, 256, 65536, 1 << 30, 1 << 48):
         c = Fraction(round(v * d), d)
         if c not in out:
@@ -165,7 +171,7 @@ def _candidates(v):
     return out
 
 
-def find_witnesses(ctx, extra, k=1):
+def find_witnesses(ctx, extra, k=1, style="dyadic"):
     """Concrete values of the harness constants on this path (satisfying `extra`).
 
     Preference: every LP optimum is a basic solution (de-facto HiGHS contract) and the
@@ -216,7 +222,7 @@ def find_witnesses(ctx, extra, k=1):
                     z = ctx.consts[n]
                     v = ev(m, z)
                     fixed = None
-                    for cand in _candidates(v):
+                    for cand in _candidates(v, style):
                         if cand == v:
                             fixed = cand
                             break
@@ -437,7 +443,11 @@ def sym_worker(args):
                 hsh = int(hashlib.sha1(repr((job, eng.trace)).encode()).hexdigest()[:8], 16) / 0xFFFFFFFF
                 want = hsh < rate or any(o["status"] != "ok" for o in ctx.obligations)
             if want and (ctx.consts or ctx.bools or ctx.scripted):
-                ws = find_witnesses(ctx, [], k=1)
+                style = "dyadic"
+                if opts.get("decimal_witness_rate"):
+                    hs = int(hashlib.sha1(repr(("style", job, eng.trace)).encode()).hexdigest()[:8], 16) / 0xFFFFFFFF
+                    style = "decimal" if hs < opts["decimal_witness_rate"] else "dyadic"
+                ws = find_witnesses(ctx, [], k=1, style=style)
                 if ws:
                     w = ws[0]
                     import z3
